@@ -229,6 +229,45 @@ func (ws *WorldSpec) ConfigJSON(idps []*IdP, redisURIs map[string]string) string
 	// default_oidc_config + oidc_override: the default carries the full configuration with a few
 	// fields deliberately wrong; the override corrects exactly those (field-by-field merge).
 	useOverride := ws.UseOverride && len(ws.Filters) == 1
+	// Several filters: default_oidc_config holds what ALL filters have in common (plus deliberately wrong values
+	// for the settings every filter sets itself); each chain's oidc_override holds the rest of that filter's
+	// configuration. Whatever the loader's merge gets wrong between chains shows up as behaviour that deviates
+	// from the filter's own specification.
+	var multiOv []map[string]any
+	if ws.UseOverride && len(ws.Filters) > 1 {
+		fulls := make([]map[string]any, len(ws.Filters))
+		for i := range ws.Filters {
+			fulls[i] = oidcOf(&ws.Filters[i])
+		}
+		js := func(v any) string { b, _ := json.Marshal(v); return string(b) }
+		def := map[string]any{}
+		for k, v := range fulls[0] {
+			same := true
+			for _, o := range fulls[1:] {
+				if ov, ok := o[k]; !ok || js(ov) != js(v) {
+					same = false
+				}
+			}
+			if same {
+				def[k] = v
+			}
+		}
+		for _, k := range []string{"client_id", "callback_uri"} {
+			if _, common := def[k]; !common {
+				def[k] = map[string]string{"client_id": "default-client", "callback_uri": "https://default.test/default-cb"}[k]
+			}
+		}
+		for i := range fulls {
+			o := map[string]any{}
+			for k, v := range fulls[i] {
+				if dv, ok := def[k]; !ok || js(dv) != js(v) {
+					o[k] = v
+				}
+			}
+			multiOv = append(multiOv, o)
+		}
+		cfg["default_oidc_config"] = def
+	}
 	var ov map[string]any
 	if useOverride {
 		f := &ws.Filters[0]
@@ -252,7 +291,9 @@ func (ws *WorldSpec) ConfigJSON(idps []*IdP, redisURIs map[string]string) string
 		for k := 0; k < f.MocksBefore; k++ {
 			filters = append(filters, map[string]any{"mock": map[string]any{"allow": true}})
 		}
-		if useOverride {
+		if multiOv != nil {
+			filters = append(filters, map[string]any{"oidc_override": multiOv[i]})
+		} else if useOverride {
 			filters = append(filters, map[string]any{"oidc_override": ov})
 		} else {
 			filters = append(filters, map[string]any{"oidc": oidcOf(f)})
